@@ -206,6 +206,9 @@ func readTabixHeader(r io.Reader, idx *Index) error {
 	if err != nil {
 		return fmt.Errorf("tabix: failed to read name lengths: %w", err)
 	}
+	if n < 1 {
+		return fmt.Errorf("tabix: invalid name block length: %d", n)
+	}
 	nameBytes := make([]byte, n)
 	_, err = io.ReadFull(r, nameBytes)
 	if err != nil {
